@@ -71,7 +71,7 @@ def run(ctx, chk):
     chk.rule('C03.5', 'D', 'a translated block does not extend past the end of the region its key belongs to', floor=1)
     facts = ctx.facts('jit')
     prog = ctx.program('jit')
-    if not need(chk, prog, [RCB, TCB, ICB, SEG, 'cache::blocks::CacheRegion::get', 'cache::blocks::CacheRegion::insert',
+    if not need(chk, prog, [RCB, TCB, SEG, 'cache::blocks::CacheRegion::get', 'cache::blocks::CacheRegion::insert',
                             'mem::can_dynarec']):
         return chk.finish('anchors missing')
     file = 'src/cache/blocks.rs'
@@ -235,7 +235,9 @@ def run(ctx, chk):
         chk.fail('C03.3', 'can_dynarec', '%s (predicate: %s)' % (outside or 'can_dynarec accepts nothing',
                                                                   [fmt(r.ret) for r in rr]), 'src/mem.rs', None)
     callers_t = sorted(set(c[0] for c in prog.callers(TCB)))
-    callers_i = sorted(set(c[0] for c in prog.callers(ICB)))
+    # blocks enter the cache through CacheRegion::insert, reached only from translate_code_block (directly or through a
+    # private helper of it such as insert_code_block)
+    callers_i = sorted(set(c[0] for c in prog.callers('cache::blocks::CacheRegion::insert')))
     guard_ok = bool(callers_t) and set(callers_t) <= families(prog, [RCB]) and bool(callers_i) and \
         set(callers_i) <= families(prog, [TCB])
     if guard_ok:
